@@ -7,5 +7,7 @@ from vlib import core, canon
 
 repo = core.get_repo()
 assert not getattr(repo, "renames", None), "the tree already differs from the reference by renames: regenerate from a clean tree"
-json.dump(canon.snapshot(repo), open(canon.TABLE, "w"), indent=0, sort_keys=True)
+snap = canon.snapshot(repo)
+snap["__types__"] = canon.snapshot_types(repo)
+json.dump(snap, open(canon.TABLE, "w"), indent=0, sort_keys=True)
 print(len(repo.fns), "functions recorded in", canon.TABLE)
